@@ -91,13 +91,21 @@ def overrides(run, F):
               {'base': 30, 'nd': 70, 'full': 100}.get(F.config, 30))
 
 
+def _wrapped_self_ok(fn, name):
+    """a wrapper backend (Arc, OptIter) forwards `name` to the wrapped container: the call's
+    Self type must not be the wrapper itself (that would be a self-recursive accessor)"""
+    own = head_of(fn.impl_self)
+    calls = [x for x in walk(fn.hir) if x.get('k') in ('MethodCall', 'Call') and
+             strip_generics(x.get('callee', '')).endswith('::' + name)]
+    return bool(calls) and all(head_of((x.get('targs') or ['?'])[0]) != own for x in calls)
+
+
 def accessors(run, F):
     for fn in B.vec1view_impl_fns(F):
         if fn.name not in ('uget', 'slice', 'uslice', 'try_as_slice', 'get_backend_name'):
             continue
         h = head_of(fn.impl_self)
-        env = {b['local']: b['name'] for p in fn.params for b in _pat_binds(p)}
-        t = dtree.table(fn.hir, env)
+        t = N.tbl(fn)
         leaf = N.one_leaf(t)
         if leaf is not None:
             leaf = leaf.replace('v1::', '')
@@ -112,37 +120,35 @@ def accessors(run, F):
             if h == 'VecDeque':
                 w = N.T((['self.as_slices().1.is_empty()'], 'Some(self.as_slices().0)', []),
                         (['!self.as_slices().1.is_empty()'], 'NULL', []))
-                t2 = {(cs, l, ()) for cs, l, ef in t}
-                ok = t2 == w
-                run.ob(rule, fn, key, ok, fn.loc(), 'table %s' % dtree.show(t))
+                run.ob(rule, fn, key, t == w, fn.loc(), 'table %s' % dtree.show(t))
                 continue
-            ok = want is not None and leaf in want
+            ok = want is not None and leaf in want and (h != 'Arc' or _wrapped_self_ok(fn, fn.name))
             run.ob(rule, fn, key, ok, fn.loc(), 'body `%s` (accepted %s)' % (leaf or src(fn.hir)[:60], want))
             continue
         if h == 'ChunkedArray' and fn.name == 'slice':
-            s = src(fn.hir)
             rows = {(frozenset(cs), l.replace('v1::', '')) for cs, l, ef in t}
-            ok = any(cs == frozenset({'(end < start)'}) and 'Err(' in l for cs, l in rows) and \
-                any(cs == frozenset({'(start <= end)'}) and
-                    l in ('Ok(self.slice(start, (end - start)))', 'Ok(self.slice(start, len))')
-                    for cs, l in rows) and 'let len = (end - start);' in s
+            ok = len(rows) == 2 and any(cs == frozenset({'(end < start)'}) and l.startswith('Err(') for cs, l in rows) and \
+                any(cs == frozenset({'(start <= end)'}) and l == 'Ok(self.slice(start, (end - start)))'
+                    for cs, l in rows)
             run.ob('API.pass', fn, key, ok, fn.loc(), 'rows %s' % sorted((sorted(c), l[:50]) for c, l in rows))
             continue
         if h == 'OptIter' and fn.name == 'slice':
-            s = src(fn.hir)
-            ok = s == 'v1::Ok(self.view.slice(start, end)?.titer().map(|v| v.to_opt()).collect_trusted_to_vec())'
-            run.ob('API.pass', fn, key, ok, fn.loc(), s[:160])
+            ok = leaf == 'Ok(self.view.slice(start, end)?.titer().map(|a0| a0).collect_trusted_to_vec())'
+            # the element map is the Option view (`to_opt`), which the canonical form erases
+            maps = [x for x in walk(fn.hir) if x.get('k') == 'MethodCall' and x['method'] == 'map']
+            ok = ok and len(maps) == 1 and any(y.get('k') == 'MethodCall' and callee_is(y, 'IsNone::to_opt')
+                                               for y in walk(maps[0]['ch'][1]))
+            run.ob('API.pass', fn, key, ok, fn.loc(), 'body `%s`' % (leaf or '')[:160])
             continue
         if h == 'ndarray' and fn.name == 'slice':
             s = src(fn.hir)
             ok = 'start..end' in s.replace(' ', '') or ('start' in s and 'end' in s and 'slice' in s)
-            m = re.search(r'SliceInfoElem::Slice \{ start: \(?(.+?) as isize\)?, end: (?:v1::)?Some\(\(?(.+?) as isize\)?\), step: (\d+)', s)
             run.ob('API.pass', fn, key, ok, fn.loc(), s[:200])
             continue
         if want is None:
             run.ob('API.pass', fn, key, False, fn.loc(), 'no tabled accessor body for backend `%s`' % h)
             continue
-        ok = leaf in want
+        ok = leaf in want and (h not in ('Arc',) or _wrapped_self_ok(fn, fn.name))
         run.ob('API.pass', fn, key, ok, fn.loc(), 'body `%s` (accepted %s)' % (leaf or src(fn.hir)[:60], want))
 
 
@@ -153,18 +159,30 @@ def lens_iters(run, F):
             continue
         tr = strip_generics(fn.impl_trait).split('::')[-1]
         key = '%s::%s for %s' % (tr, fn.name, N._short(fn.impl_self)[:50])
-        s = src(fn.hir)
+        h = head_of(fn.impl_self)
+        t = N.tbl(fn)
+        leaf = N.one_leaf(t)
         if tr == 'GetLen' and fn.name == 'len':
-            ok = s in ('self.len()', '(*self).len()', '*self.len()', 'self.view.len()', 'N', 'vec::N',
-                       '(**self).len()', '**self.len()') or \
-                re.fullmatch(r'\(?\*?\*?self\)?\.len\(\)', s) is not None
-            run.ob('API.len', fn, key, ok, fn.loc(), 'body `%s`' % s)
+            ok = leaf in ('self.len()', 'self.view.len()', 'vec::N', 'N')
+            if leaf == 'self.len()':
+                # the container's own length, not this very method: the receiver type differs
+                # from the implementing type or the call is an inherent method
+                calls = [x for x in walk(fn.hir) if x.get('k') == 'MethodCall' and x['method'] == 'len']
+                ok = ok and len(calls) == 1 and not strip_generics(calls[0].get('callee', '')).endswith('GetLen::len') \
+                    or ok and len(calls) == 1 and head_of((calls[0].get('targs') or ['?'])[0]) != h
+            run.ob('API.len', fn, key, ok, fn.loc(), 'body `%s`' % leaf)
         if tr == 'TIter' and fn.name == 'titer':
-            ok = s in ('self.iter().cloned()', '(**self).titer()', '**self.titer()', 'self.into_iter()',
-                       'self.view.titer().map(|v| v.to_opt())', '(*self).titer()') or \
-                s.startswith('self.into_iter().map(|v| v.cast())') or 'match self.dtype()' in s or \
-                s in ('self.into_iter().map(|v| v)',)
-            run.ob('API.iter', fn, key, ok, fn.loc(), 'body `%s`' % s[:80])
+            ok = leaf in ('self.iter().cloned()', 'self.titer()', 'self.into_iter()',
+                          'self.view.titer().map(|a0| a0)', 'self.into_iter().map(|a0| a0)')
+            if leaf == 'self.titer()':
+                ok = _wrapped_self_ok(fn, 'titer')
+            if leaf is None:
+                # polars datetime columns: dispatch on the column's time unit, panic otherwise
+                rows = [(cs, l) for cs, l, ef in t]
+                ok = len(rows) == 2 and sorted(l for cs, l in rows) == ['PANIC', 'self.into_iter().map(|a0| a0)'] \
+                    and all(len(cs) == 1 and 'self.dtype() is DataType::Datetime(' in list(cs)[0] for cs, l in rows)
+            run.ob('API.iter', fn, key, ok, fn.loc(), 'body `%s`' % (leaf or dtree.show(t))[:120] if leaf else
+                   'table %s' % str(dtree.show(t))[:160])
 
 
 def wrappers(run, F, cfg):
@@ -178,10 +196,10 @@ def wrappers(run, F, cfg):
             w = by_name[(tr, name[:-3])]
             n += 1
             params = [b['name'] for p in w.params for b in _pat_binds(p)][1:]
-            want = 'self.%s(%s).unwrap()' % (name, ', '.join(params + ['v1::None']))
-            s = src(w.hir)
+            want = 'self.%s(%s)' % (name, ', '.join(params + ['NULL']))
+            s = N.one_leaf(N.tbl(w)) or src(w.hir)
             to_params = [b['name'] for p in fn.params for b in _pat_binds(p)][1:]
-            ok = s == want and to_params == params + ['out']
+            ok = s == want and to_params[:-1] == params and len(to_params) == len(params) + 1
             run.ob('WRAP.no_out', w, '%s -> %s' % (w.name, name), ok, w.loc(),
                    'body `%s`; kernel parameters %s' % (s[:120], to_params))
     run.floor('WRAP.no_out', '#[no_out] wrappers (config %s)' % cfg, n, 35 if cfg != 'full' else 37)
